@@ -179,10 +179,18 @@ def fresh_row(sheet, row):
 
 
 def run_sheet(sheet):
+    """the rows in order on the sheet's ONE RowParser (rows flagged `other` on a second parser for another model living
+    beside it; rows flagged `fresh` on a RowParser + CellParser created for that row: same process, no instance history)"""
     pa = make_parser(sheet["ty"])
     pb = make_parser(sheet["ty2"]) if sheet.get("ty2") else None
     objs = [cs.py_ctx(c) for c in sheet["ctxs"]]
-    return [parse_one(pb if row.get("other") else pa, row, objs) for row in sheet["rows"]]
+    out = []
+    for row in sheet["rows"]:
+        if row.get("fresh"):
+            out.append(fresh_row(sheet, row))
+        else:
+            out.append(parse_one(pb if row.get("other") else pa, row, objs))
+    return out
 
 
 def isolated_prepare():
@@ -193,7 +201,15 @@ def isolated_prepare():
 
 
 def isolated_row(item):
+    """one row on new parsers in a process that has done nothing else"""
     return cs.outcome(fresh_row(item["sheet"], item["row"]))
+
+
+def isolated_sheets(item):
+    """several sheets one after the other in ONE process that has done nothing else -> the outcomes of the last one"""
+    for sh in item["sheets"][:-1]:
+        run_sheet(sh)
+    return [cs.outcome(g) for g in run_sheet(item["sheets"][-1])]
 
 
 # ------------------------------------------------------------------ generation
@@ -459,54 +475,120 @@ def model_sheet(sheet, got, m, disagree, stats):
                 disagree("sheet row instance: model state machine vs the sheet's RowParser", case, mp[1], im[1])
 
 
-def still_fails(sheet, at_rows, key, iso):
-    """at_rows: the row dicts (identity) the failure is about"""
-    pos = [i for i, r in enumerate(sheet["rows"]) if any(r is x for x in at_rows)]
-    for f in judge(sheet, iso if key == K_ROW_PROCESS else None):
-        if f["key"] == key and f["at"] == pos:
-            return f
-    return None
+def lean(sheet, rows=None):
+    """what a replay needs of a sheet"""
+    out = {k: sheet[k] for k in ("ty", "ty2", "show", "ctxs") if k in sheet}
+    out["rows"] = [{k: r[k] for k in ("cells", "ctx", "k", "other", "fresh", "pre_include", "native") if k in r}
+                   for r in (sheet["rows"] if rows is None else rows)]
+    return out
 
 
-def minimise(sheet, at, key, iso):
-    rows = [dict(r) for r in sheet["rows"][:max(at) + 1]]      # copies: the sheet itself stays as generated
-    keep = [rows[i] for i in at]
-    i = 0
-    while i < len(rows):
-        if any(rows[i] is x for x in keep):
-            i += 1
-            continue
-        cand = dict(sheet, rows=rows[:i] + rows[i + 1:])
-        if still_fails(cand, keep, key, iso):
-            rows = cand["rows"]
-        else:
-            i += 1
-    # drop columns of the remaining rows while the failure stays (not for layout pairs: a row with a column less is
-    # no longer a layout of the same value)
-    small = dict(sheet, rows=rows)
-    for r in (list(rows) if key != K_LAYOUT_HISTORY else []):
-        j = 0
-        while j < len(r["cells"]) and len(r["cells"]) > 1:
-            saved = r["cells"]
-            r["cells"] = saved[:j] + saved[j + 1:]
-            if still_fails(small, keep, key, iso):
-                continue
-            r["cells"] = saved
-            j += 1
-    f = still_fails(small, keep, key, iso)
-    used = sorted({r["ctx"][1] for r in rows if isinstance(r.get("ctx"), list)})
-    renum = {o: n for n, o in enumerate(used)}
-    out_rows = []
-    for r in rows:
-        r2 = {k: v for k, v in r.items() if k != "val"}
-        if isinstance(r2.get("ctx"), list):
-            r2["ctx"] = ["ref", renum[r2["ctx"][1]]]
-        if r.get("val") is not None:
-            r2["val"] = 0 if any(r is x for x in keep) and key == K_LAYOUT_HISTORY else None
-        out_rows.append(r2)
-    res = {k: sheet[k] for k in ("ty", "ty2", "show") if k in sheet}
-    res.update(ctxs=[sheet["ctxs"][k] for k in used], rows=out_rows, values=[None])
-    return res, [i for i, r in enumerate(rows) if any(r is x for x in keep)], (f or {}).get("what")
+class Clean:
+    """judgements that do not depend on what THIS process has done: sheets are run one after the other in one forked
+    pristine process, each row alone in another (cached)"""
+
+    def __init__(self, iso):
+        self.iso = iso
+        self.cache = {}
+
+    def single(self, sheet, row):
+        c = row.get("ctx")
+        r2 = {k: row[k] for k in ("cells", "ctx", "other", "pre_include") if k in row}
+        sh = {k: sheet[k] for k in ("ty", "ty2") if k in sheet}
+        sh["ctxs"] = []
+        if isinstance(c, list):
+            r2["ctx"] = ["ref", 0]
+            sh["ctxs"] = [sheet["ctxs"][c[1]]]
+        item = dict(sheet=sh, row=r2)
+        key = json.dumps(item, sort_keys=True)
+        if key not in self.cache:
+            self.cache[key] = self.iso.ask("c09_history", "isolated_row", [item])[0]
+        return self.cache[key]
+
+    def fails(self, sheets, at):
+        """at = [i]: row i of the last sheet differs from the row alone; at = [a, b]: the two rows (layouts of one value)
+        are equal alone and differ within the history.  -> description or None"""
+        outs = self.iso.ask("c09_history", "isolated_sheets", [dict(sheets=sheets)])[0]
+        last = sheets[-1]
+        if not isinstance(outs, list) or len(outs) != len(last["rows"]):
+            return None
+        if len(at) == 1:
+            i = at[0]
+            one = self.single(last, last["rows"][i])
+            if outs[i] != one:
+                return f"row {i} {show_row(last, last['rows'][i])} gives {outs[i]} after the rows before it, {one} as the only row of a process"
+            return None
+        a, b = at
+        oa, ob = self.single(last, last["rows"][a]), self.single(last, last["rows"][b])
+        alone_same = oa[0] == "ok" and oa == ob
+        here_same = outs[a][0] == "ok" and outs[a] == outs[b]
+        if alone_same and not here_same:
+            return (f"two layouts of one value parse alike alone and differently within the sheet: row {a} {show_row(last, last['rows'][a])} -> {outs[a]}; "
+                    f"row {b} {show_row(last, last['rows'][b])} -> {outs[b]}")
+        return None
+
+    def reproduce(self, prior, sheet, at):
+        """-> (sheets, at, key, what) or None"""
+        head = lean(sheet, sheet["rows"][:max(at) + 1])
+        hist, k = None, 0
+        while True:
+            cand = [lean(p) for p in prior[len(prior) - k:]] + [head] if k else [head]
+            if self.fails(cand, at):
+                hist = cand
+                break
+            if k >= len(prior):
+                return None
+            k = min(len(prior), max(1, 2 * k))
+        # whole earlier sheets, oldest first
+        i = 0
+        while i < len(hist) - 1:
+            trial = hist[:i] + hist[i + 1:]
+            if self.fails(trial, at):
+                hist = trial
+            else:
+                i += 1
+        # rows
+        at = list(at)
+        for si in range(len(hist)):
+            j = 0
+            while j < len(hist[si]["rows"]):
+                is_last = si == len(hist) - 1
+                if is_last and j in at:
+                    j += 1
+                    continue
+                sh = dict(hist[si], rows=hist[si]["rows"][:j] + hist[si]["rows"][j + 1:])
+                at2 = [x - 1 if (is_last and x > j) else x for x in at]
+                trial = hist[:si] + [sh] + hist[si + 1:]
+                if self.fails(trial, at2):
+                    hist, at = trial, at2
+                else:
+                    j += 1
+        hist = [h for h in hist[:-1] if h["rows"]] + [hist[-1]]
+        # columns (not of layout pairs: a row with a column less is no longer a layout of the same value)
+        if len(at) == 1:
+            for si in range(len(hist)):
+                for ri in range(len(hist[si]["rows"])):
+                    j = 0
+                    while len(hist[si]["rows"][ri]["cells"]) > 1 and j < len(hist[si]["rows"][ri]["cells"]):
+                        row = hist[si]["rows"][ri]
+                        r2 = dict(row, cells=row["cells"][:j] + row["cells"][j + 1:])
+                        sh = dict(hist[si], rows=hist[si]["rows"][:ri] + [r2] + hist[si]["rows"][ri + 1:])
+                        trial = hist[:si] + [sh] + hist[si + 1:]
+                        if self.fails(trial, at):
+                            hist = trial
+                        else:
+                            j += 1
+        what = self.fails(hist, at)
+        key = K_ROW_HISTORY if len(at) == 1 else K_LAYOUT_HISTORY
+        if len(at) == 1:
+            # instance state or state outside the instances?  the same row on parsers created after the history
+            last = hist[-1]
+            r2 = dict(last["rows"][at[0]], fresh=True)
+            probe = hist[:-1] + [dict(last, rows=last["rows"][:at[0]] + [r2] + last["rows"][at[0] + 1:])]
+            pw = self.fails(probe, at)
+            if pw:
+                hist, key, what = probe, K_ROW_PROCESS, pw + " (the row is parsed by a NEW RowParser and CellParser: the state is not in the instances)"
+        return hist, at, key, what
 
 
 # ------------------------------------------------------------------ the stream
@@ -514,6 +596,8 @@ def run_sheets(ctx, nontrivial):
     import isolate
     from c07 import flow_desc, flow_ctx_tables
 
+    import time
+    t0 = time.time()
     v, rng, m = ctx.v, ctx.rng, ctx.model
     thorough = ctx.tier == "thorough"
     n_sheets = (1500 if thorough else 110) * ctx.scale
@@ -528,6 +612,9 @@ def run_sheets(ctx, nontrivial):
     except Exception as e:
         st["isolation"] = f"unavailable: {type(e).__name__}"
     samples = []
+    clean = Clean(iso) if iso else None
+    attempts = {}
+    prior = []           # the sheets this process has already parsed, oldest first
     try:
         for n in range(n_sheets):
             flow = rng.random() < 0.4
@@ -576,46 +663,75 @@ def run_sheets(ctx, nontrivial):
                     continue
                 reported.add(f["key"])
                 if f["key"] == K_NOT_VALUE:
-                    row = dict(rows[f["at"][0]], val=0)
+                    one = lean(sheet, [dict(rows[f["at"][0]])])
                     v.failing_input("flow-encoding-does-not-parse-to-value" if sheet["ty"] == "flow" else K_NOT_VALUE, f"model {sheet.get('show')}: {f['what']}",
-                                    dict(fn="sheet", sheet=dict({k: sheet[k] for k in ("ty", "ty2", "show") if k in sheet}, ctxs=sheet["ctxs"], values=[f["value"]], rows=[row]),
-                                         at=[0], key=K_NOT_VALUE))
+                                    dict(fn="sheets", sheets=[one], at=[0], key=K_NOT_VALUE, value=f["value"]))
                     continue
                 if f.get("also_fresh"):
-                    # the two layouts differ on fresh parsers too: a layout dependence of the kind the pair streams report
-                    small, at, what = minimise(dict(sheet, rows=[rows[i] for i in f["at"]]), [0, 1], f["key"], None)
+                    # the two layouts differ on fresh parsers too: a layout dependence WITHIN the rows (no history needed)
+                    pair = lean(sheet, [dict(rows[i]) for i in f["at"]])
                     v.failing_input("flow-layout-dependent-parse" if sheet["ty"] == "flow" else "layout-dependent-parse",
-                                    f"model {sheet.get('show')}: {what or f['what']}", dict(fn="sheet", sheet=small, at=at, key=f["key"]))
+                                    f"model {sheet.get('show')}: {f['what']}", dict(fn="sheets", sheets=[pair], at=[0, 1], key=f["key"]))
                     continue
-                small, at, what = minimise(sheet, f["at"], f["key"], iso)
-                v.failing_input(f["key"], f"model {sheet.get('show')}: {what or f['what']}", dict(fn="sheet", sheet=small, at=at, key=f["key"]))
+                if attempts.get(f["key"], 0) >= 3:
+                    continue
+                attempts[f["key"]] = attempts.get(f["key"], 0) + 1
+                rep = clean.reproduce(prior, sheet, f["at"]) if clean else None
+                if rep is None and clean:
+                    st["failures_not_reproduced_in_a_clean_process"] = st.get("failures_not_reproduced_in_a_clean_process", 0) + 1
+                    ctx.disagree("sheet: a failure seen in the harness process does not reproduce in a pristine process",
+                                 dict(model=sheet.get("show"), rows=[show_row(sheet, r) for r in rows[:max(f["at"]) + 1]][-6:]), f["key"], f["what"])
+                    continue
+                if rep is None:
+                    hist, at, key, what = [lean(sheet, rows[:max(f["at"]) + 1])], f["at"], f["key"], f["what"]
+                else:
+                    hist, at, key, what = rep
+                v.failing_input(key, f"model {sheet.get('show')}: {what}", dict(fn="sheets", sheets=hist, at=at, key=key))
+            prior.append(sheet)
             if len(samples) < 2 and len(rows) >= 3:
                 samples.append(dict(sheet_model=sheet.get("show"), rows=[show_row(sheet, r) for r in rows[:6]]))
     finally:
         if iso:
             st["isolated_calls"] = iso.calls
             iso.close()
+    st["wall_s"] = round(time.time() - t0, 1)
     ctx.stats["sheet_histories"] = st
     return samples
 
 
 def replay_sheet(r):
+    """reproduced iff, the sheets run one after the other in ONE pristine process, the row(s) `at` of the last one fail:
+    a row differs from the same row as the only row of a process / two layouts of one value differ / a layout does not
+    parse to its value"""
     import isolate
+    from c07 import _deep_eq
 
-    sheet = r["sheet"]
-    iso = None
+    sheets = r["sheets"] if "sheets" in r else [r["sheet"]]
+    at, key = r["at"], r.get("key")
+    iso = isolate.Isolated()
     try:
-        iso = isolate.Isolated()
-    except Exception:
-        pass
-    try:
-        fails = judge(sheet, iso)
-        got = run_sheet(sheet)
+        outs = iso.ask("c09_history", "isolated_sheets", [dict(sheets=sheets)])[0]
+        last = sheets[-1]
+        for si, sh in enumerate(sheets[:-1]):
+            for row in sh["rows"]:
+                print(f"  earlier sheet {si}: {show_row(sh, row)}")
+        for i, (row, g) in enumerate(zip(last["rows"], outs)):
+            print(f"  row {i}: {show_row(last, row)} -> {g}")
+        clean = Clean(iso)
+        if key == K_NOT_VALUE:
+            got = fresh_row(last, last["rows"][at[0]])
+            ok = got[0] == "ok" and _deep_eq(got[1], r["value"])
+            if not ok:
+                print(f"  FAILS: the layout parses to {got}, the value is {r['value']!r}")
+            return ok
+        if len(at) == 2 and key == K_LAYOUT_HISTORY:
+            same = outs[at[0]][0] == "ok" and outs[at[0]] == outs[at[1]]
+            if not same:
+                print(f"  FAILS: rows {at} are layouts of one value and parse differently")
+            return same
+        what = clean.fails(sheets, at)
+        if what:
+            print("  FAILS:", what)
+        return what is None
     finally:
-        if iso:
-            iso.close()
-    for i, (row, g) in enumerate(zip(sheet["rows"], got)):
-        print(f"  row {i}: {show_row(sheet, row)} -> {cs.outcome(g)}")
-    for f in fails:
-        print(f"  FAILS at row(s) {f['at']} [{f['key']}]: {f['what']}")
-    return not fails
+        iso.close()
